@@ -265,7 +265,11 @@ func oracleC10(cx *CheckCtx, runs []*CaseRun) []Finding {
 		if o.Kind != OpRender {
 			continue
 		}
-		for ti, target := range []string{"fresh", "existing", "missingdir", "isdir"} {
+		targets := []string{"fresh", "existing", "missingdir", "isdir"}
+		if _, err := os.Stat("/dev/full"); err == nil {
+			targets = append(targets, "devfull") // opens fine, every write fails with ENOSPC
+		}
+		for ti, target := range targets {
 			cx.Stats.OracleCases++
 			dir := filepath.Join(tmp, fmt.Sprintf("c%d-%d", ci, ti))
 			os.MkdirAll(dir, 0o755)
@@ -279,6 +283,8 @@ func oracleC10(cx *CheckCtx, runs []*CaseRun) []Finding {
 				path = filepath.Join(dir, "nope", "out.go")
 			case "isdir":
 				os.Mkdir(path, 0o755)
+			case "devfull":
+				path = "/dev/full"
 			}
 			rl, _ := func() (*Real, error) {
 				rl := NewReal(&FormChooser{r: NewRng(uint64(ci)*7919 + 1), Fixed: -1})
@@ -307,7 +313,11 @@ func oracleC10(cx *CheckCtx, runs []*CaseRun) []Finding {
 					class = "err:fs"
 				}
 			}
-			after, rerr := os.ReadFile(path)
+			var after []byte
+			rerr := os.ErrInvalid
+			if target != "devfull" { // reading /dev/full never ends
+				after, rerr = os.ReadFile(path)
+			}
 			eff := ""
 			switch {
 			case target == "existing" && string(after) == before:
